@@ -670,6 +670,9 @@ func vfToNode(t *rapid.T, v any, st vfTextStyle, label string, depth int) (n *ya
 		}
 
 		return n, nil
+	case time.Time:
+		// Node.Encode would produce a quoted (string) scalar here.
+		return &yaml.Node{Kind: yaml.ScalarNode, Tag: "!!timestamp", Value: x.Format(time.RFC3339Nano)}, nil
 	default:
 		n = &yaml.Node{}
 		err = n.Encode(v)
